@@ -16,23 +16,23 @@ What is here:
                                   `deep_recursion_errors_core` (unbounded non-tail recursion ends with the error value
                                   `overflow` for EVERY limit, never stuck).
 
-NOT proved (full statement kept visible):
+`core_loop_constant_space` (general, at the end of this file) is proved by the bytecode-verifier route: an invariant over
+ALL reachable configurations (`CoreWF.lean`: every closure value anywhere has a checked body, primitive slots hold
+primitives, inside a body the instruction pointer is never on a `FUNC` word) preserved by each of the 40 instructions
+(`CoreWFStep.lean`, `inv_step`).  The static predicate is `tailOnlyB` on the generated instruction sequences (decidable,
+evaluated by `decide`; it applies to real listings read into `Instr` as well).  Proved: at most ONE frame in every
+reachable configuration of every run (terminating or not), for closures flowing through parameters, captured variables,
+boxes, globals, lists, with any arities and rest arguments; the frame limit never fires (`tail_only_never_overflows`);
+at every loop head the operand stack is back at `sp + maxN + 1` (`tail_entry_height`).
 
-    theorem core_loop_constant_space (e : Core) (h : TailOnly e = true) (σ0 := primitives) :
-        ∀ n c, steps n (initCfg (compileTop e) (toSt σ0)) = some c →
-          c.frames.length ≤ 1 ∧ c.stack.length ≤ stackBound e
-
-  for the static predicate `TailOnly` = "every application in every lambda body is in tail position or applies a
-  primitive slot that is never assigned".  A proof needs an invariant over ALL reachable configurations (every closure
-  value anywhere in stack / store / globals / captured lists has a tail-only body, primitive slots still hold primitives,
-  the instruction pointer is at an instruction boundary of code produced by `compile`) and its preservation by each of
-  the 40 instructions — a bytecode-verifier-sized proof that was not finished.  What stands in for it: the static half
-  (`tail_positions_marked_core`), the dynamic half per instruction (`step_frames_core`, `tail_call_constant_frames`,
-  `tail_call_stack_height`), one loop for all counts, and — evaluated, not proved for all counts — mutual recursion
-  through globals, a callee reached through a variable, through a captured variable, through the result of a call, and a
-  closure with rest arguments (the `maxFrames … = 1` examples at the end).
+STILL NOT PROVED: (1) a static bound on the operand-stack height at the positions BETWEEN two loop heads (it needs a
+stack-height analysis of the straight-line code of a body, with the nested closure regions of the enclosing code
+excluded — attempted, not finished); only the concrete loop has it (`core_tail_loop_any_count`: ≤ 5).  (2) The
+source-level statement `TailOnly e → tailOnlyB … (compileTop e)` for a syntactic predicate on `Core`: the predicate
+used is the check of the generated code itself.
 -/
 import SteelVerif.C09.CoreLoop
+import SteelVerif.C09.CoreWFStep
 namespace SteelVerif.C09C
 open SteelVerif.C01C
 
@@ -323,5 +323,292 @@ example : maxFrames 250 (initCfg (compileTop (.callG 25 [.const (.int 9)])) (stO
 -- … and all four terminate with 0
 example : (match run 400 (initCfg (compileTop (.callG 25 [.const (.int 9)])) (stOf [vloopDef])) with
     | .ok (v, _) => V.toInt? v | _ => none) = some 0 := by decide
+
+/-! ## Constant frame depth for EVERY tail-only program (the general theorem)
+
+Route taken: the bytecode-verifier route (an invariant over all reachable configurations, preserved by each
+instruction: `CoreWF.lean`, `CoreWFStep.lean`), on INSTRUCTION SEQUENCES — so it applies to `compileTop e` for every
+core program `e` and equally to a real listing read into `Instr`.  The static predicate is `tailOnlyB` below:
+decidable, evaluated by `decide` on concrete programs.  It does not depend on termination: the bound holds for every
+configuration of every run, finite or not, first-class closures flowing through parameters, captured variables, boxes,
+globals and lists included. -/
+
+theorem inv_steps {ps : Params} : ∀ (n : Nat) (c c' : Cfg), Inv ps c → steps n c = some c' → Inv ps c' := by
+  intro n
+  induction n with
+  | zero => intro c c' h hs; simp [steps] at hs; subst hs; exact h
+  | succ n ih =>
+    intro c c' h hs
+    simp only [steps] at hs
+    cases hst : step c with
+    | next c2 => rw [hst] at hs; exact ih c2 c' (inv_step h hst) hs
+    | halt v st => rw [hst] at hs; cases hs
+    | err e => rw [hst] at hs; cases hs
+
+theorem inv_init {ps : Params} {code : List Instr} {st : St (List Instr)} (hc : GoodTop ps code) (hst : StOk ps st) :
+    Inv ps (initCfg code st) := ⟨GoodL.nil ps, hst, hc⟩
+
+/-- The state a halting step leaves is the state of the configuration. -/
+theorem step_halt_st {c : Cfg} {v : VVal} {st : St (List Instr)} (h : step c = .halt v st) : st = c.st := by
+  cases hi : c.code[c.ip]? with
+  | none => simp [step, hi] at h
+  | some ins =>
+    have hd : ∀ c2 : Cfg, doRet c2 = .halt v st → st = c2.st := by
+      intro c2 h2
+      unfold doRet at h2
+      split at h2
+      · cases h2
+      · split at h2
+        · simp only [StepRes.halt.injEq] at h2; exact h2.2.symm
+        · split at h2 <;> cases h2
+    have ht : ∀ (stack : List VVal) (f : VVal) (n : Nat) (pr : Bool) (nx : Nat),
+        tailFn c stack f n pr nx = .halt v st → st = c.st := by
+      intro stack f n pr nx h2
+      unfold tailFn at h2
+      repeat' split at h2
+      all_goals first
+        | (cases h2; done)
+        | (have h3 := hd _ h2; exact h3)
+    have hcf : ∀ (stack : List VVal) (f : VVal) (n ret : Nat), callFn c stack f n ret ≠ .halt v st := by
+      intro stack f n ret h2
+      unfold callFn at h2
+      repeat' split at h2
+      all_goals cases h2
+    cases ins <;> simp only [step, hi] at h
+    all_goals first
+      | exact hd _ h
+      | (repeat' split at h
+         all_goals first
+           | (cases h; done)
+           | exact ht _ _ _ _ _ h
+           | exact absurd h (hcf _ _ _ _))
+
+theorem run_ok_stOk {ps : Params} : ∀ (n : Nat) (c : Cfg) (v : VVal) (st : St (List Instr)), Inv ps c →
+    run n c = .ok (v, st) → StOk ps st := by
+  intro n
+  induction n with
+  | zero => intro c v st _ h; simp [run] at h
+  | succ n ih =>
+    intro c v st hinv h
+    simp only [run] at h
+    cases hs : step c with
+    | next c2 => rw [hs] at h; exact ih c2 v st (inv_step hinv hs) h
+    | halt v2 st2 =>
+      rw [hs] at h
+      simp only [Res.ok.injEq, Prod.mk.injEq] at h
+      obtain ⟨_, rfl⟩ := h
+      rw [step_halt_st hs]; exact hinv.st
+    | err e => rw [hs] at h; cases h
+
+/-- The configurations of a program: those of the run of its first top-level sequence and, if that run ends with a
+value, those of the rest of the program from the resulting state. -/
+inductive Reach : List (List Instr) → St (List Instr) → Cfg → Prop where
+  | here {code : List Instr} {rest : List (List Instr)} {st : St (List Instr)} {n : Nat} {c : Cfg} :
+      steps n (initCfg code st) = some c → Reach (code :: rest) st c
+  | later {code : List Instr} {rest : List (List Instr)} {st st1 : St (List Instr)} {n : Nat} {v : VVal} {c : Cfg} :
+      run n (initCfg code st) = .ok (v, st1) → Reach rest st1 c → Reach (code :: rest) st c
+
+/-- The decidable static predicate: every top-level sequence passes the checker (`fuel` ≥ nesting depth of lambdas). -/
+def tailOnlyB (fuel : Nat) (ps : Params) (codes : List (List Instr)) : Bool := codes.all (goodTopB fuel ps)
+
+/-- **Tail-only programs run in constant frame depth.**  `ps` = the global slots of the primitives.  If every top-level
+instruction sequence of the program passes the static check `tailOnlyB` — inside every lambda body (at any nesting
+depth) the only non-tail calls are calls of primitive slots, and nobody assigns a primitive slot — and the initial state
+is well formed (`StOk`: e.g. the primitives only), then EVERY configuration reachable in the run of the program, after
+any number of steps of any of its top-level forms, has at most ONE frame (the call made by the top-level form), and all
+the invariants of `Inv` (every closure value anywhere still has a checked body).  No assumption on termination, on how
+closures flow (parameters, captured variables, boxes, globals, lists, results of calls in tail position), on arities or
+rest arguments. -/
+theorem core_loop_constant_space (fuel : Nat) (ps : Params) : ∀ (codes : List (List Instr)) (st : St (List Instr)),
+    tailOnlyB fuel ps codes = true → StOk ps st → ∀ c, Reach codes st c → c.frames.length ≤ 1 ∧ Inv ps c := by
+  intro codes
+  induction codes with
+  | nil => intro st _ _ c hr; cases hr
+  | cons code rest ih =>
+    intro st hok hst c hr
+    simp only [tailOnlyB, List.all_cons, Bool.and_eq_true] at hok
+    have hinit := inv_init (goodTopB_sound fuel ps code hok.1) hst
+    cases hr with
+    | here hs => have := inv_steps _ _ _ hinit hs; exact ⟨this.len, this⟩
+    | later hrun hrest => exact ih _ hok.2 (run_ok_stOk _ _ _ _ hinit hrun) c hrest
+
+/-- The same for core programs: the instruction sequences are the generated ones. -/
+theorem core_loop_constant_space_compiled (fuel : Nat) (ps : Params) (es : List Core) (st : St (List Instr))
+    (h : tailOnlyB fuel ps (es.map compileTop) = true) (hst : StOk ps st) (c : Cfg)
+    (hr : Reach (es.map compileTop) st c) : c.frames.length ≤ 1 :=
+  (core_loop_constant_space fuel ps _ st h hst c hr).1
+
+/-- Under any limit ≥ 2 such a program never overflows: a step from a reachable configuration that `step` can take,
+`stepLimited` takes too. -/
+theorem tail_only_never_overflows (fuel : Nat) (ps : Params) (codes : List (List Instr)) (st : St (List Instr))
+    (h : tailOnlyB fuel ps codes = true) (hst : StOk ps st) (c c' : Cfg) (hr : Reach codes st c)
+    (limit : Nat) (hl : 2 ≤ limit) (hs : step c = .next c') : stepLimited limit c = .next c' := by
+  have hinv := (core_loop_constant_space fuel ps codes st h hst c hr).2
+  have := (inv_step hinv hs).len
+  have hn : ¬ (c.frames.length < c'.frames.length ∧ limit ≤ c'.frames.length) := by omega
+  simp [stepLimited, hs, hn]
+
+/-! ### Operand stack: no accumulation across iterations
+
+Every entry into a closure body by a tail call (`TAILCALL`, `CALLGLOBALTAIL`, `TCOJMP`) — i.e. every loop head —
+finds the operand stack at height `sp + (number of locals)`, at most `sp + maxN + 1` for the static bound `maxN` on the
+operand counts of tail calls (part of the check `tailOnlyB`), with the SAME frame base `sp` — whatever the previous
+iterations left in the frame.  (A bound for the positions between two loop heads — the frame's temporaries and
+let-bound variables — would need a stack-height analysis of straight-line code; it is not proved in general, only for
+the concrete loop: `core_tail_loop_any_count`, at most 5 operands.) -/
+
+theorem bindArgs_length {α : Type} {a : Nat} {r : Bool} {args locals : List (V α)}
+    (h : bindArgs a r args = .ok locals) : locals.length ≤ args.length + 1 := by
+  unfold bindArgs at h
+  cases r
+  · simp at h; split at h
+    · simp at h; subst h; omega
+    · cases h
+  · simp at h
+    split at h
+    · cases h
+    · simp at h; subst h; simp; omega
+
+theorem tailFn_entry {c c' : Cfg} {fr : Frame} (stack : List VVal) (f : VVal) (n : Nat) (pr : Bool) (nx : Nat)
+    (hf : c.frames = [fr]) (hnx : nx ≠ 0) (hs : tailFn c stack f n pr nx = .next c')
+    (hent : c'.ip = 0 ∧ c'.frames.length = 1) :
+    c'.stack.length ≤ fr.sp + n + 1 ∧ spOf c'.frames = fr.sp := by
+  unfold tailFn at hs
+  cases hsp : splitLast n stack with
+  | none => simp [hsp] at hs
+  | some p =>
+    obtain ⟨below, args⟩ := p
+    obtain ⟨_, hlen, _⟩ := splitLast_some hsp
+    simp only [hsp] at hs
+    cases f with
+    | prim p =>
+      simp only at hs
+      cases hp : p.apply args with
+      | ok r =>
+        simp only [hp] at hs
+        cases pr
+        · simp only [Bool.false_eq_true, if_false, StepRes.next.injEq] at hs; subst hs
+          exact absurd hent.1 hnx
+        · simp only [if_true] at hs
+          have h1 := doRet_frames _ _ hs
+          have h2 := hent.2
+          simp only [hf, List.length_singleton] at h1
+          omega
+      | err e => simp [hp] at hs
+      | timeout => simp [hp] at hs
+    | clo a r body caps =>
+      simp only at hs
+      cases hbd : bindArgs a r args with
+      | ok locals =>
+        simp only [hbd, hf] at hs
+        split at hs
+        · cases hs
+        · simp only [StepRes.next.injEq] at hs; subst hs
+          have := bindArgs_length hbd
+          simp [spOf]
+          omega
+      | err e => simp [hbd] at hs
+      | timeout => simp [hbd] at hs
+    | int _ => simp at hs
+    | bool _ => simp at hs
+    | void => simp at hs
+    | box _ => simp at hs
+    | list _ => simp at hs
+
+/-- **At every loop head the operand stack is back at `sp + O(1)`.** -/
+theorem tail_entry_height {ps : Params} {c c' : Cfg} (h : Inv ps c) (fr : Frame) (hf : c.frames = [fr]) (n : Nat)
+    (hi : c.code[c.ip]? = some (.TAILCALL n) ∨ c.code[c.ip]? = some (.TCOJMP n) ∨
+      (∃ g, c.code[c.ip]? = some (.CALLGLOBALTAIL g) ∧ c.code[c.ip + 1]? = some (.TAILCALL n)))
+    (hs : step c = .next c') (hent : c'.ip = 0 ∧ c'.frames.length = 1) :
+    c'.stack.length ≤ fr.sp + ps.maxN + 1 ∧ spOf c'.frames = fr.sp := by
+  have hbody := h.body hf
+  rcases hi with hi | hi | ⟨g, hi, hi2⟩
+  · have hn := hbody.rules.payload _ n (Or.inl hi)
+    simp only [step, hi] at hs
+    cases hl : c.stack.getLast? with
+    | none => simp [hl] at hs
+    | some f =>
+      simp only [hl] at hs
+      have := tailFn_entry _ f n false (c.ip + 1) hf (by omega) hs hent
+      exact ⟨by omega, this.2⟩
+  · have hn := hbody.rules.payload _ n (Or.inr hi)
+    simp only [step, hi, hf] at hs
+    cases hsp : splitLast n c.stack with
+    | none => simp [hsp] at hs
+    | some p =>
+      obtain ⟨below, args⟩ := p
+      obtain ⟨_, hlen, _⟩ := splitLast_some hsp
+      simp only [hsp] at hs
+      cases hbd : bindArgs fr.arity fr.rest args with
+      | ok locals =>
+        simp only [hbd] at hs
+        split at hs
+        · cases hs
+        · simp only [StepRes.next.injEq] at hs; subst hs
+          have := bindArgs_length hbd
+          simp [hf, spOf]
+          omega
+      | err e => simp [hbd] at hs
+      | timeout => simp [hbd] at hs
+  · have hn := hbody.rules.payload _ n (Or.inl hi2)
+    simp only [step, hi, hi2] at hs
+    cases hg : lookupG g c.st.globals with
+    | none => simp [hg] at hs
+    | some f =>
+      simp only [hg] at hs
+      have := tailFn_entry _ f n true (c.ip + 2) hf (by omega) hs hent
+      exact ⟨by omega, this.2⟩
+
+/-- The primitive slots of the initial state. -/
+def primSlots : Params := ⟨[0, 1, 2, 3, 4, 5], 4, 64⟩
+
+theorem stOk_prims : StOk primSlots (toSt ⟨[], primGlobals⟩) := by
+  refine ⟨by simp [toSt]; exact GoodL.nil _, ?_, ?_⟩
+  · intro g v hm
+    simp [toSt, primGlobals] at hm
+    rcases hm with ⟨_, rfl⟩ | ⟨_, rfl⟩ | ⟨_, rfl⟩ | ⟨_, rfl⟩ | ⟨_, rfl⟩ | ⟨_, rfl⟩ <;> exact .prim _
+  · intro g hg
+    simp [primSlots] at hg
+    rcases hg with rfl | rfl | rfl | rfl | rfl | rfl <;> simp [toSt, primGlobals, lookupG]
+
+/-! ### Non-vacuity: the shapes of the property pass the static check (by evaluation of the checker) -/
+
+def progCodes (es : List Core) : List (List Instr) := es.map compileTop
+
+-- self recursion with accumulating parameters (`TCOJMP`)
+example : tailOnlyB 3 primSlots (progCodes [loopDef, .callG 12 [.const (.int 1000000), .const (.int 0)]]) = true := by
+  decide
+-- mutual recursion among three global procedures, through `if`, with a let-bound temporary (`CALLGLOBALTAIL`)
+def m1 : Core := .define 30 (.lam 1 false []
+  (.ite (.callG 4 [.loc 0 false, .const (.int 0)]) (.const (.int 1))
+    (.let_ 1 [.callG 1 [.loc 0 false, .const (.int 1)]] (.callG 31 [.loc 1 true]))))
+def m2 : Core := .define 31 (.lam 1 false []
+  (.ite (.callG 4 [.loc 0 false, .const (.int 0)]) (.const (.int 2)) (.callG 32 [.callG 1 [.loc 0 true, .const (.int 1)]])))
+def m3 : Core := .define 32 (.lam 1 false []
+  (.seq (.const .void)
+    (.ite (.callG 4 [.loc 0 false, .const (.int 0)]) (.const (.int 3)) (.callG 30 [.callG 1 [.loc 0 true, .const (.int 1)]]))))
+example : tailOnlyB 3 primSlots (progCodes [m1, m2, m3, .callG 30 [.const (.int 100)]]) = true := by decide
+-- callee passed as a parameter; callee in a captured variable; closure with rest arguments; boxes (captured + assigned)
+example : tailOnlyB 3 primSlots (progCodes [spinDef, .callG 20 [.glob 20, .const (.int 12)]]) = true := by decide
+example : tailOnlyB 3 primSlots (progCodes [capDef, lpDef, .callG 22 [.const (.int 8)]]) = true := by decide
+example : tailOnlyB 3 primSlots (progCodes [vloopDef, .callG 25 [.const (.int 9)]]) = true := by decide
+example : tailOnlyB 3 primSlots (progCodes [mkE, kE, callK, callK, sharedE, setIt, getIt]) = true := by decide
+-- NOT tail-only (rightly rejected): non-tail recursion; a callee that is the result of a non-tail call of a closure
+example : tailOnlyB 3 primSlots (progCodes [deepnDef]) = false := by decide
+example : tailOnlyB 3 primSlots (progCodes [selfDef, rloopDef]) = false := by decide
+-- instances of the theorem, from the initial state with the primitives only: EVERY configuration of the whole program
+-- (the three definitions, then `(m1 100)` resp. the loop with a million iterations) has at most one frame
+example (c : Cfg) (hr : Reach (progCodes [m1, m2, m3, .callG 30 [.const (.int 100)]]) (toSt ⟨[], primGlobals⟩) c) :
+    c.frames.length ≤ 1 :=
+  core_loop_constant_space_compiled 3 primSlots _ _ (by decide) stOk_prims c hr
+example (c : Cfg)
+    (hr : Reach (progCodes [loopDef, .callG 12 [.const (.int 1000000), .const (.int 0)]]) (toSt ⟨[], primGlobals⟩) c) :
+    c.frames.length ≤ 1 :=
+  core_loop_constant_space_compiled 3 primSlots _ _ (by decide) stOk_prims c hr
+-- … and such configurations exist (the run really gets into the loop): 40 steps into the second form
+example : ∃ c, Reach (progCodes [loopDef, .callG 12 [.const (.int 1000000), .const (.int 0)]]) (toSt ⟨[], primGlobals⟩) c ∧
+    c.frames.length = 1 := by
+  have h1 : run 20 (initCfg (compileTop loopDef) (toSt ⟨[], primGlobals⟩)) = .ok (.void, stLoop) := rfl
+  exact ⟨_, .later h1 (.here (n := 3) rfl), rfl⟩
 
 end SteelVerif.C09C
